@@ -25,6 +25,9 @@ pub enum Flavor {
     Handoff,
     /// C10: drain probes
     Drain,
+    /// C05: like `Mixed`, with frequent crash-less recoveries and many targeted multi-row allocations
+    /// (orders 6..8: the roll-back paths of the row loops) — what survives a recovery is what was recorded
+    Recover,
     /// C17: through the zone wrapper with an offset
     Zone,
 }
@@ -558,7 +561,24 @@ impl Gen<'_> {
             if self.eng.inst.is_none() {
                 return;
             }
-            let r = self.rng.below(100);
+            let mut r = self.rng.below(100);
+            if self.flavor == Flavor::Recover {
+                match self.rng.below(8) {
+                    0 => r = 96, // recovery
+                    1 | 2 => {
+                        // a targeted allocation of 1-4 rows somewhere in the first trees: succeeds or rolls back
+                        let order = *self.rng.pick(&[6usize, 7, 7, 8, 8]);
+                        let class = self.rand_class();
+                        let local = self.rand_local(class);
+                        let frames = self.cfg().frames;
+                        let f = self.rng.below(frames.min(2 * TREE_FRAMES)) >> order << order;
+                        self.q(format!("get {order} {class} {} {f}", opt(local)));
+                        self.post();
+                        continue;
+                    }
+                    _ => {}
+                }
+            }
             match self.flavor {
                 Flavor::SingleSlot => {
                     // exhaust, free a subset, allocate again
